@@ -225,7 +225,7 @@ ATTR_INVARIANTS: dict[tuple[str, str, str], str] = {
     ("graphql/execution/async_iterables.py", "aclosing.__aexit__", 'has no attribute "aclose"'):
         "",
     ("graphql/error/graphql_error.py", "GraphQLError.__init__", 'has no attribute "__iter__"'):
-        "the single-Node case is taken by the isinstance(nodes, Node) arm before the iteration",
+        "`nodes` is a list at this point: the statement before normalises a tuple with list(nodes) and wraps anything else as [nodes]",
     ("graphql/type/definition.py", "GraphQLEnumType.__init__", '"Enum" has no attribute "__members__"'):
         "arm guarded by isinstance(values, type) and issubclass(values, Enum): an Enum *class*, which has __members__",
 }
